@@ -288,7 +288,9 @@ class C08(Prop):
                 if rng.random() < 0.15: nk = "unknown"
                 elif rng.random() < 0.05 and n > 0:
                     b = bytearray(s); b[rng.randrange(n)] = 0; s = bytes(b)
-                if rng.random() < 0.06:
+                if rng.random() < 0.04:
+                    ops.append("dsqcat snull=1 L=%s n=unknown" % rng.choice(["known", "unknown"]))
+                elif rng.random() < 0.06:
                     m = [rng.choice([254, 254, 253, rng.randrange(0, Kp), rng.randrange(0, Kp)]) for _ in range(128)]   # valid codes only
                     m[0] = Kp - 3
                     if rng.random() < 0.5: m[rng.choice(s) % 128 if s else 65] = rng.choice([255, 252, 251, 250, 200, 128])
